@@ -213,6 +213,9 @@ Value& MemberCONCATExpression::value(Context& ctx) const
 
   if (a0.isNull()) /* + null */
     return val;
+  /* a table cannot be concatenated to string or bytes */
+  if (a0.type().level() > 0)
+    throw RuntimeError(EXC_RT_MEMB_ARG_TYPE_S, KEYWORDS[_builtin]);
   switch (val.type().major())
   {
     /* literal */
@@ -404,14 +407,14 @@ MemberCONCATExpression * MemberCONCATExpression::parse(Parser& p, Context& ctx, 
       {
         /* string CONCAT string or one byte */
       case Type::LITERAL:
-        if (args.back()->type(ctx) != Type::LITERAL &&
+        if (args.back()->type(ctx) != Value::type_literal &&
                 !ParseExpression::typeChecking(args.back(), Type::INTEGER, p, ctx))
           throw ParseError(EXC_PARSE_MEMB_ARG_TYPE_S, KEYWORDS[BTM_CONCAT], t);
         break;
         /* bytes CONCAT bytes or string or one byte */
       case Type::TABCHAR:
-        if (args.back()->type(ctx) != Type::TABCHAR &&
-                args.back()->type(ctx) != Type::LITERAL &&
+        if (args.back()->type(ctx) != Value::type_tabchar &&
+                args.back()->type(ctx) != Value::type_literal &&
                 !ParseExpression::typeChecking(args.back(), Type::INTEGER, p, ctx))
           throw ParseError(EXC_PARSE_MEMB_ARG_TYPE_S, KEYWORDS[BTM_CONCAT], t);
         break;
